@@ -1,6 +1,10 @@
 #!/usr/bin/env python3
-"""prints the markdown table of section 8 of DESIGN.md from seeded/*/meta.json"""
-import json, glob, os
+"""prints the markdown table of section 8 of DESIGN.md from seeded/*/meta.json; with --write, replaces the table between the seed-table markers of DESIGN.md"""
+import json, glob, os, sys, io
+_out = io.StringIO()
+_print = print
+def print(*a):
+    _print(*a, file=_out)
 print('| seed | property | change (one line) | needs, to manifest | detected by |')
 print('|---|---|---|---|---|')
 for mp in sorted(glob.glob('/verif/seeded/*/meta.json')):
@@ -34,3 +38,12 @@ for mp in sorted(glob.glob('/verif/seeded/*/meta.json')):
     else:
         ds = str(det) if det else 'not run'
     print(f"| {m['id']} | {m['property']} | {title} | {needs} | {ds} |")
+
+text = _out.getvalue()
+if '--write' in sys.argv:
+    d = open('/verif/DESIGN.md').read()
+    a = d.index('<!-- seed-table-begin -->') + len('<!-- seed-table-begin -->\n')
+    b = d.index('<!-- seed-table-end -->')
+    open('/verif/DESIGN.md', 'w').write(d[:a] + text + d[b:])
+else:
+    sys.stdout.write(text)
